@@ -242,15 +242,20 @@ structure Worker where
   st : WSt
 deriving DecidableEq, Repr, Inhabited
 
+/-- which of the three kinds of metadata flush an item belongs to (same semantics, different place in the protocol) -/
+inductive Ph where
+  | init | chunk | last
+deriving DecidableEq, Repr, Inhabited
+
 inductive Item where
   | op (o : Op)                            -- one FS operation of the saver thread with static arguments
   | rmtreeIf (d : DirId)                   -- `if exists(d): rmtree(d)` after the exists-probe
   | unlinks (d : DirId)                    -- inside rmtree: one unlink per entry, order chosen by the scheduler
-  | flushOpen | flushWrite | flushClose    -- `_flush_metadata`: open(w) / write(json(md)) / close
+  | flushOpen (p : Ph) | flushWrite (p : Ph) | flushClose (p : Ph)   -- `_flush_metadata`: open(w) / write(json(md)) / close
   | armed                                  -- FileSaver.__init__ returned: from now on a failure closes the saver
   | append (ci : ChunkInfo)                -- md["chunks"].append(chunk_info)
   | submit (i : Nat) (ops : List Op)       -- start a chunk write
-  | join (i : Nat)                         -- the write was synchronous: its exception is the saver's
+  | join                                   -- the write just started was synchronous: its exception is the saver's
   | poll                                   -- save_from: `f.result()` of the futures that are done
   | waitAll                                -- save_from: wait(pending); f.result()
   | waitQuiet                              -- close(wait_for=pending): wait only
@@ -275,6 +280,9 @@ structure HandlerSpec where
   /-- the processor's handler never reaches this saver (single-thread processor: `kill_spies` stops at the first
   saver that is already closed, D7), so a failure leaves it as it is -/
   abandoned : Bool := false
+  /-- the processor does not notice an exception raised by `Saver.close()` at the normal end of `save_from`
+  (threaded processor as it is: the saver thread dies, `got_exception` stays unset — the behaviour before the D26 fix) -/
+  lostClose : Bool := false
 deriving DecidableEq, Repr, Inhabited
 
 structure Cfg where
@@ -285,8 +293,8 @@ structure Cfg where
   term : Bool            -- a failure of the saver thread is terminal (inside __init__, inside the handler, after closed=True)
   handling : Bool        -- the saver is being closed by an exception handler
   out : Outcome
-  failed : Bool          -- ghost: some operation raised / an exception was thrown in
-  log : List Op          -- ghost: operations issued so far, newest first
+  failed : Bool          -- ghost: some FS operation of the protocol raised
+  lost : Bool            -- ghost: an exception of the saver was lost (never reported to the caller)
   spec : HandlerSpec
 deriving DecidableEq, Repr, Inhabited
 
@@ -302,16 +310,16 @@ def forkOps (i : Nat) (c : Chunk) : List Op :=
   ++ (if i = 0 then [.openTrunc .temp .md, .write .temp .md (.json ⟨[infoOf i c], false, false⟩), .close .temp .md]
       else [])
 
-def flushItems : List Item := [.flushOpen, .flushWrite, .flushClose]
+def flushItems (p : Ph) : List Item := [.flushOpen p, .flushWrite p, .flushClose p]
 
 /-- `Saver.save(chunk, i)` as seen by the saver thread; `recheck = false` is the OLD protocol (D3: done futures
 dropped unchecked) -/
 def chunkItems (v : Variant) (recheck : Bool) (i : Nat) (c : Chunk) : List Item :=
   match v with
   | .serial =>
-    (if c.rows.isEmpty then [] else [.submit i (writeOps i c.rows), .join i]) ++ [.append (infoOf i c)] ++ flushItems
+    (if c.rows.isEmpty then [] else [.submit i (writeOps i c.rows), .join]) ++ [.append (infoOf i c)] ++ flushItems .chunk
   | .executor =>
-    (if c.rows.isEmpty then [] else [.submit i (writeOps i c.rows)]) ++ [.append (infoOf i c)] ++ flushItems
+    (if c.rows.isEmpty then [] else [.submit i (writeOps i c.rows)]) ++ [.append (infoOf i c)] ++ flushItems .chunk
       ++ (if recheck then [.poll] else [])
   | .forked => [.submit i (forkOps i c)] ++ (if recheck then [.poll] else [])
 
@@ -321,12 +329,12 @@ def chunksItems (v : Variant) (recheck : Bool) : Nat → List Chunk → List Ite
 
 /-- `Saver.close` + `FileSaver._close` -/
 def closeItems : List Item :=
-  [.waitQuiet, .markClosed, .checkTemp, .collect] ++ flushItems ++ [.op (.renameDir .temp .final), .finish]
+  [.waitQuiet, .markClosed, .checkTemp, .collect] ++ flushItems .last ++ [.op (.renameDir .temp .final), .finish]
 
 /-- `FileSaver.__init__` -/
 def initItems : List Item :=
   [.op (.existsDir .final), .rmtreeIf .final, .op (.existsDir .temp), .rmtreeIf .temp, .op (.mkdir .temp)]
-  ++ flushItems ++ [.armed]
+  ++ flushItems .init ++ [.armed]
 
 def saverProg (v : Variant) (recheck : Bool) (cs : List Chunk) : List Item :=
   initItems ++ chunksItems v recheck 0 cs ++ (if recheck && v != .serial then [.waitAll] else []) ++ closeItems
@@ -336,7 +344,7 @@ def handlerItems (h : HandlerSpec) : List Item :=
 
 def initCfg (fs : FS) (v : Variant) (recheck : Bool) (cs : List Chunk) (h : HandlerSpec) : Cfg :=
   { fs, md := ⟨[], false, false⟩, prog := saverProg v recheck cs, workers := [], term := true, handling := false,
-    out := .running, failed := false, log := [], spec := h }
+    out := .running, failed := false, lost := false, spec := h }
 
 /-- the scheduler's choices -/
 inductive Act where
@@ -344,22 +352,30 @@ inductive Act where
   | savFail              -- … its next FS operation raises instead (I/O error)
   | abort                -- an exception is thrown into the saver thread from elsewhere (plugin, other saver, mailbox kill)
   | rm (n : Name)        -- inside rmtree: unlink entry n next
+  | rmFail (n : Name)    -- … which raises
   | wrk (k : Nat)        -- the k-th chunk write performs its next operation
   | wrkFail (k : Nat)    -- … which raises
 deriving DecidableEq, Repr, Inhabited
 
-/-- the saver thread gets an exception -/
-def Cfg.fail (c : Cfg) : Cfg :=
-  if c.term || c.spec.abandoned then { c with prog := [], out := .raised, failed := true }
-  else { c with prog := handlerItems c.spec, term := true, handling := true, failed := true }
+/-- the saver was closed by the normal path (`closed = True` set by `Saver.close` without an exception around) -/
+def Cfg.closedNormally (c : Cfg) : Bool := c.md.ended && !c.handling
 
-def Cfg.pop (c : Cfg) : Cfg := { c with prog := c.prog.tail }
+/-- the saver thread gets an exception: outside the armed region it simply propagates (and is lost when the
+processor does not look: before the D26 fix); otherwise the processor's handler closes the saver -/
+def Cfg.fail (c : Cfg) : Cfg :=
+  if c.term || c.spec.abandoned then
+    if c.spec.lostClose && c.closedNormally then { c with prog := [], out := .success, lost := true }
+    else { c with prog := [], out := .raised }
+  else { c with prog := handlerItems c.spec, term := true, handling := true }
+
+/-- an FS operation of the saver thread raised -/
+def Cfg.opFail (c : Cfg) : Cfg := { c with failed := true }.fail
 
 /-- the saver thread issues FS operation `o`, then continues with `rest` -/
 def Cfg.doOp (c : Cfg) (o : Op) (rest : List Item) : Cfg :=
   match apply c.fs o with
-  | .ok fs' => { c with fs := fs', prog := rest, log := o :: c.log }
-  | .error _ => { c with log := o :: c.log }.fail
+  | .ok fs' => { c with fs := fs', prog := rest }
+  | .error _ => c.opFail
 
 def cmetaIdx (d : Dir) : List Nat :=
   d.filterMap fun e => match e.1 with
@@ -375,18 +391,19 @@ def collectList (d : Dir) : List Nat :=
 def collectItems (l : List Nat) : List Item :=
   l.flatMap fun i => [.readInfo i, .op (.unlink .temp (.cmeta i))]
 
+/-- state of the write submitted last -/
+def lastSt (ws : List Worker) : Option WSt := ws.getLast?.map (·.st)
+
 def anyRunning (ws : List Worker) : Bool := ws.any (·.st == .running)
 def anyFailed (ws : List Worker) : Bool := ws.any (·.st == .failed)
-
-def workerSt (ws : List Worker) (i : Nat) : Option WSt := (ws.find? (·.i == i)).map (·.st)
 
 /-- the FS operation the saver's head item issues next, if it issues one -/
 def headOp (c : Cfg) : Option Op :=
   match c.prog with
   | .op o :: _ => some o
-  | .flushOpen :: _ => some (.openTrunc .temp .md)
-  | .flushWrite :: _ => some (.write .temp .md (.json c.md))
-  | .flushClose :: _ => some (.close .temp .md)
+  | .flushOpen _ :: _ => some (.openTrunc .temp .md)
+  | .flushWrite _ :: _ => some (.write .temp .md (.json c.md))
+  | .flushClose _ :: _ => some (.close .temp .md)
   | .checkTemp :: _ => some (.existsDir .temp)
   | .collect :: _ => some (.glob .temp)
   | .readInfo i :: _ => some (.read .temp (.cmeta i))
@@ -406,15 +423,15 @@ def step (c : Cfg) : Act → Option Cfg
       match c.fs.dir d with
       | some (_ :: _) => none                         -- the scheduler must pick an entry (`rm n`)
       | _ => some { c with prog := rest }
-    | .flushOpen :: rest => some (c.doOp (.openTrunc .temp .md) rest)
-    | .flushWrite :: rest => some (c.doOp (.write .temp .md (.json c.md)) rest)
-    | .flushClose :: rest => some (c.doOp (.close .temp .md) rest)
+    | .flushOpen _ :: rest => some (c.doOp (.openTrunc .temp .md) rest)
+    | .flushWrite _ :: rest => some (c.doOp (.write .temp .md (.json c.md)) rest)
+    | .flushClose _ :: rest => some (c.doOp (.close .temp .md) rest)
     | .armed :: rest => some { c with prog := rest, term := false }
     | .append ci :: rest => some { c with prog := rest, md := { c.md with chunks := c.md.chunks ++ [ci] } }
     | .submit i ops :: rest =>
       some { c with prog := rest, workers := c.workers ++ [⟨i, ops, if ops.isEmpty then .ok else .running⟩] }
-    | .join i :: rest =>
-      match workerSt c.workers i with
+    | .join :: rest =>
+      match lastSt c.workers with
       | some .running => none
       | some .failed => some c.fail
       | _ => some { c with prog := rest }
@@ -425,24 +442,21 @@ def step (c : Cfg) : Act → Option Cfg
     | .waitQuiet :: rest => if anyRunning c.workers then none else some { c with prog := rest }
     | .markClosed :: rest =>
       some { c with prog := rest, term := true, md := { c.md with ended := true, exc := c.handling } }
-    | .checkTemp :: rest =>
-      let c' := { c with log := .existsDir .temp :: c.log }
-      if c.fs.temp.isSome then some { c' with prog := rest } else some c'.fail
+    | .checkTemp :: rest => if c.fs.temp.isSome then some { c with prog := rest } else some c.opFail
     | .collect :: rest =>
-      some { c with prog := collectItems (collectList (c.fs.temp.getD [])) ++ rest, log := .glob .temp :: c.log }
+      some { c with prog := collectItems (collectList (c.fs.temp.getD [])) ++ rest }
     | .readInfo i :: rest =>
-      let c' := { c with log := .read .temp (.cmeta i) :: c.log }
       match c.fs.temp.bind (·.get (.cmeta i)) with
-      | some (.info ci) => some { c' with prog := rest, md := { c.md with chunks := c.md.chunks ++ [ci] } }
-      | _ => some c'.fail
+      | some (.info ci) => some { c with prog := rest, md := { c.md with chunks := c.md.chunks ++ [ci] } }
+      | _ => some c.opFail
     | .finish :: rest => some { c with prog := rest, out := if c.handling then .raised else .success }
   | .savFail =>
     match c.prog with
     | [] => none
     | _ :: _ =>
       match headOp c with
-      | some o => some { c with log := o :: c.log }.fail
-      | none => some c.fail
+      | some _ => some c.opFail
+      | none => none
   | .abort =>
     match c.prog with
     | [] => none
@@ -452,8 +466,14 @@ def step (c : Cfg) : Act → Option Cfg
     | .unlinks d :: _ =>
       match c.fs.dir d with
       | some dir =>
-        if (dir.get n).isSome then some { c with fs := c.fs.setDir d (some (dir.del n)), log := .unlink d n :: c.log }
-        else none
+        if (dir.get n).isSome then some { c with fs := c.fs.setDir d (some (dir.del n)) } else none
+      | none => none
+    | _ => none
+  | .rmFail n =>
+    match c.prog with
+    | .unlinks d :: _ =>
+      match c.fs.dir d with
+      | some dir => if (dir.get n).isSome then some c.opFail else none
       | none => none
     | _ => none
   | .wrk k =>
@@ -463,18 +483,16 @@ def step (c : Cfg) : Act → Option Cfg
       | .running, o :: rest =>
         match apply c.fs o with
         | .ok fs' =>
-          some { c with fs := fs', log := o :: c.log,
+          some { c with fs := fs',
                         workers := c.workers.set k { w with ops := rest, st := if rest.isEmpty then .ok else .running } }
-        | .error _ =>
-          some { c with failed := true, log := o :: c.log, workers := c.workers.set k { w with ops := [], st := .failed } }
+        | .error _ => some { c with failed := true, workers := c.workers.set k { w with ops := [], st := .failed } }
       | _, _ => none
     | none => none
   | .wrkFail k =>
     match c.workers[k]? with
     | some w =>
       match w.st, w.ops with
-      | .running, o :: _ =>
-        some { c with failed := true, log := o :: c.log, workers := c.workers.set k { w with ops := [], st := .failed } }
+      | .running, _ :: _ => some { c with failed := true, workers := c.workers.set k { w with ops := [], st := .failed } }
       | _, _ => none
     | none => none
 
@@ -565,7 +583,7 @@ def actOp (c : Cfg) : Act → Option Op
     match c.prog with
     | .unlinks _ :: _ => none
     | _ => headOp c
-  | .rm n =>
+  | .rm n | .rmFail n =>
     match c.prog with
     | .unlinks d :: _ => some (.unlink d n)
     | _ => none
@@ -573,7 +591,7 @@ def actOp (c : Cfg) : Act → Option Op
 
 def failOf : Act → Act
   | .sav => .savFail
-  | .rm _ => .savFail
+  | .rm n => .rmFail n
   | .wrk k => .wrkFail k
   | a => a
 
@@ -589,41 +607,51 @@ structure Fault where
   kind : FaultKind
 deriving DecidableEq, Repr, Inhabited
 
-def abortNow (ft : Option Fault) (c : Cfg) : Bool :=
+def abortNow (ft : Option Fault) (c : Cfg) (nops : Nat) : Bool :=
   match ft with
-  | some f => f.kind == .abort && c.log.length == f.k && !c.failed && !c.prog.isEmpty
+  | some f => f.kind == .abort && nops == f.k && !c.handling && !c.prog.isEmpty
   | none => false
 
-/-- eager execution with at most one fault; returns the configuration and whether the process died -/
-def runAuto (o : RmOrder) (ft : Option Fault) : Nat → Cfg → Cfg × Bool
-  | 0, c => (c, false)
-  | fuel + 1, c =>
-    if abortNow ft c then
+/-- result of a scheduled run: configuration, operations issued (newest first), did the process die -/
+structure RunResult where
+  cfg : Cfg
+  log : List Op
+  died : Bool
+deriving Repr, Inhabited
+
+/-- eager execution with at most one fault -/
+def runAuto (o : RmOrder) (ft : Option Fault) : Nat → Cfg → List Op → RunResult
+  | 0, c, log => ⟨c, log, false⟩
+  | fuel + 1, c, log =>
+    if abortNow ft c log.length then
       match step c .abort with
-      | some c' => runAuto o ft fuel c'
-      | none => (c, false)
+      | some c' => runAuto o ft fuel c' log
+      | none => ⟨c, log, false⟩
     else
     match autoAct o c with
-    | none => (c, false)
+    | none => ⟨c, log, false⟩
     | some a =>
+      let log' := match actOp c a with
+        | some op => op :: log
+        | none => log
       let hit : Option FaultKind :=
         match ft, actOp c a with
-        | some f, some _ => if c.log.length = f.k then some f.kind else none
+        | some f, some _ => if log.length = f.k then some f.kind else none
         | _, _ => none
       match hit with
-      | some .dieBefore => (c, true)
+      | some .dieBefore => ⟨c, log, true⟩
       | some .exc =>
         match step c (failOf a) with
-        | some c' => runAuto o ft fuel c'
-        | none => (c, false)
+        | some c' => runAuto o ft fuel c' log'
+        | none => ⟨c, log, false⟩
       | some .dieAfter =>
         match step c a with
-        | some c' => (c', true)
-        | none => (c, false)
+        | some c' => ⟨c', log', true⟩
+        | none => ⟨c, log, false⟩
       | some .abort | none =>
         match step c a with
-        | some c' => runAuto o ft fuel c'
-        | none => (c, false)
+        | some c' => runAuto o ft fuel c' log'
+        | none => ⟨c, log, false⟩
 
 /-- enough fuel for every run of a program of this size -/
 def fuelFor (c : Cfg) : Nat :=
@@ -636,15 +664,15 @@ deriving DecidableEq, Repr, Inhabited
 
 /-- one attempt at making the data from file-system state `fs` -/
 def attempt (fs : FS) (v : Variant) (recheck : Bool) (cs : List Chunk) (h : HandlerSpec) (o : RmOrder)
-    (ft : Option Fault) : Cfg × Result :=
+    (ft : Option Fault) : RunResult × Result :=
   let c0 := initCfg fs v recheck cs h
   match start fs with
-  | .stored => ({ c0 with prog := [], out := .success }, .stored)
-  | .corrupted => ({ c0 with prog := [], out := .raised }, .corrupted)
+  | .stored => (⟨{ c0 with prog := [], out := .success }, [], false⟩, .stored)
+  | .corrupted => (⟨{ c0 with prog := [], out := .raised }, [], false⟩, .corrupted)
   | .save =>
-    let (c, died) := runAuto o ft (fuelFor c0) c0
-    (c, if died then .died else
-        match c.out with
+    let r := runAuto o ft (fuelFor c0) c0 []
+    (r, if r.died then .died else
+        match r.cfg.out with
         | .success => .success
         | .raised => .raised
         | .running => .died)
